@@ -9,6 +9,22 @@ GOODBYE = "Goodbye!"
 LINE_RE = re.compile(r"Line \d+, Column \d+")
 
 
+def framing(ctx):
+    """the banner line and the goodbye line of the interactive mode, as THIS binary prints them (their wording is no
+    property's business): learnt from a session with no input; each must be exactly one line"""
+    if "framing" not in ctx:
+        b, g = BANNER, GOODBYE
+        try:
+            rc, so, se = run_binary(ctx, dict(id="frame", tab=4, file=None, expr=None, stdin=[], end=None, after=[]))
+            lines = so.split("\n")
+            if rc == 0 and len(lines) == 3 and lines[2] == "" and lines[0] and lines[1]:
+                b, g = lines[0], lines[1]
+        except Exception:
+            pass
+        ctx["framing"] = (b, g)
+    return ctx["framing"]
+
+
 def ensure_nl(s):
     return s if s.endswith("\n") else s + "\n"
 
@@ -178,6 +194,7 @@ def run_front(ctx, repeat=1, cross_modes=True, vary_env=False):
     rep, rng, quick = ctx["rep"], ctx["rng"], ctx["quick"]
     sessions = gen_sessions(rng, 150 if quick else 1500)
     by_id = {s["id"]: s for s in sessions}
+    BANNER, GOODBYE = framing(ctx)
     # positions, diagnostic details and printed text are the business of C14 / C08 / C15 / C18: the model comparison of
     # the sessions is on results and diagnostic kinds; the binary is compared with the in-process run byte for byte below
     P = props.proj_values()
@@ -308,7 +325,7 @@ def malformed_text_on_binary(ctx, rng, count):
             out_lines = so.splitlines()
             # file mode: one diagnostic for the file, then `zq` must be unknown; expression mode: one diagnostic, nothing else
             want = 2 if mode == "file" else 1
-            ok = rc == 0 and len(out_lines) == want and all(LINE_RE.match(l) or l.startswith("Expected") for l in out_lines)
+            ok = rc == 0 and len(out_lines) == want and all(LINE_RE.match(l) for l in out_lines)
             if not ok:
                 bad += 1
                 if bad <= 3:
@@ -370,6 +387,7 @@ def cross_mode_check(ctx, rng, count):
                 s2["expr"] = s2["expr"] + "\n" + "\n".join(probe)
             outs.append(run_binary(ctx, s2))
         s3 = dict(as_lines, stdin=lines + probe)
+        BANNER, GOODBYE = framing(ctx)
         rc, so, se = run_binary(ctx, s3)
         so = so.replace(BANNER + "\n", "", 1)
         if so.endswith(GOODBYE + "\n"):
